@@ -337,6 +337,7 @@ async def run_xfer(ctx) -> None:
                 pl0 = f"00200008{len(f0) // 2:02X}{fn:02X}{len(frs0):02X}{f0}"
                 hub.count("other_zone_reply_same_fragment_number")
                 deliveries.append((loop.time() + 0.02, "00", history["00"][-1][1]))
+                overheard_log.append((loop.time() + 0.02, "00", history["00"][-1][1]))
                 hub.rx_line(hub.ports["/dev/sim0"], f"RP --- {CTL} {OTHER} --:------ 0404 {len(pl0) // 2:03d} {pl0}", 0.02)
         key = f"x/{code}/{rq_line[46:58]}/{sum(1 for t, l in ctl.rq_log if l == rq_line)}"
 
@@ -363,10 +364,15 @@ async def run_xfer(ctx) -> None:
         return [0.03]
 
     deliveries: list[tuple[float, str, str]] = []  # (t_delivered, zone, version) of every RP|0404 fragment
+    overheard_log: list[tuple[float, str, str]] = []  # ... those of them that answered somebody else (not part of a transfer of ours)
+    counter_replies: list[tuple[float, float]] = []  # (t_generated, t_delivered) of every RP|0006
 
     acks: list[tuple] = []  # (t_delivered, zone, frag, t_of_the_W_it_answers): the controller's I|0404 acknowledgements
 
     def on_reply(rq_line, rep, lats):
+        if rep[37:41] == "0006":
+            for lat in lats or []:
+                counter_replies.append((loop.time(), loop.time() + lat))
         if rq_line[:2] == " W" and rq_line[37:41] == "0404":
             zz = "HW" if rq_line[48:50] == "23" else rq_line[46:48]
             for lat in lats or []:
@@ -489,6 +495,7 @@ async def run_xfer(ctx) -> None:
                 pl = f"{z}200008{len(f) // 2:02X}{i:02X}{len(frs):02X}{f}"
                 hub.count("overheard")
                 deliveries.append((loop.time(), z, norm(s)))
+                overheard_log.append((loop.time(), z, norm(s)))
                 hub.rx_line(ser, f"RP --- {CTL} {OTHER} --:------ 0404 {len(pl) // 2:03d} {pl}", 0.0)
             loop.call_at(t_start + o["at"], overhear)
         elif o["op"] == "cancel":
@@ -551,6 +558,9 @@ async def run_xfer(ctx) -> None:
                 kind = "stale_version" if got in allv else "mixed"
                 if kind == "stale_version" and old_fragment_after_change(hist, deliveries, z, got, ent["ret"]):
                     kind = "stale_version:old_fragment_after_change"
+                elif kind == "stale_version" and any(tg < tc <= td <= ent["ret"] + 1e-6 for (tc, _sv) in hist[1:] for (tg, td) in counter_replies):
+                    # a reply to the change-counter query that was generated before the change and delivered (late) after it
+                    kind = "stale_version:late_counter_reply_after_change"
                 if kind == "stale_version" and not o["force"]:
                     ctx.probe("unforced_get_returned_cached_older_version")  # by design: no change counter was read
                     continue
@@ -605,6 +615,10 @@ async def run_xfer(ctx) -> None:
                 if not detail and hz and norm(res) not in {sv for (_t, sv) in hz} and any(
                         zz == z and ver != hz[-1][1] and hz[-1][0] < t <= loop.time() for (t, zz, ver) in deliveries):
                     detail = "old_fragment_after_change"  # ... stitched into the new version's fragment set (neither version comes out)
+                if not detail and hz and any(zz == z and ver != hz[-1][1] and t < hz[-1][0] for (t, zz, ver) in overheard_log):
+                    # fragments of the previous version that answered somebody else were overheard before the change; they were still
+                    # in the zone's fragment set when our fetch started after the change, and it only asked for the missing numbers
+                    detail = "stale_overheard_fragments_reused"
                 if not detail and z in stale_ack_zones:
                     detail = "late_ack_of_previous_write"  # (the consequence of KF14: the library caches what it believes it wrote)
                 own = [e for e in results.values() if e["op"]["zone"] == z and e.get("sched") == norm(res) and e["ret"] is not None]
